@@ -121,9 +121,10 @@ def _case(draw, tier):
     nover = draw(st.integers(0, 2)) if tower else draw(st.integers(1, 2))
     keys = draw(st.lists(st.sampled_from(KEYS[:4] if tower else KEYS), min_size=nover, max_size=nover, unique_by=_canon))
     overrides = []
+    nested_parts = []
     nex = 0
     for a in keys:
-        mode = draw(st.sampled_from(['self', 'other', 'other', 'self-wide', 'wide']))
+        mode = draw(st.sampled_from(['self-nested', 'self', 'other', 'other', 'self-wide', 'wide']))
         c, _n = H.avoid_known_shapes(draw(H.hint_nodes(draw(st.sampled_from([0, 0, 1])), hashable=True)))
         c = _opaque_free(c)
         # the replacement must not mention any override key or tower class except the documented A | C form
@@ -131,6 +132,14 @@ def _case(draw, tier):
             c = ['cls', 'int']
         # (replacements beartype ignores - Any, object, unbound TypeVar - were excluded while C18/override-to-ignorable-in-union was
         # an open finding; repaired in 53677c3, they are generated again)
+        if mode == 'self-nested':
+            # the replacement mentions its own key again below a container (A -> A | list[A], A -> list[A]): the occurrence
+            # inside the replacement is not replaced again, an explicit occurrence elsewhere in the hint is
+            inner = draw(st.sampled_from([['tupv', a, 't'], ['tupf', [a, ['cls', 'int']], 't'], ['tupv', a, 'T']]))    # hashable containers only
+            b = ['union', [a, inner], 'U'] if draw(st.booleans()) else inner
+            overrides.append([a, b])
+            nested_parts.append(inner)
+            continue
         if mode in ('self-wide', 'wide'):
             # replacement = a union with more members than the unions the key usually sits in (Optional[A], A | int)
             extra = draw(st.lists(st.sampled_from([['cls', 'int'], ['cls', 'str'], ['cls', 'VBase'], ['cls', 'bool'], ['none']]),
@@ -139,7 +148,8 @@ def _case(draw, tier):
         else:
             b = ['union', [a, c], 'U'] if mode == 'self' else c
         overrides.append([a, b])
-    targets = [a for a, _b in overrides] + ([['cls', 'float'], ['cls', 'complex']] if tower else [])
+    # (the container in which a self-nested replacement mentions its key is itself written out in the checked hint now and then)
+    targets = [a for a, _b in overrides] + nested_parts + ([['cls', 'float'], ['cls', 'complex']] if tower else [])
     depth = draw(st.sampled_from([0, 1, 1, 2, 2, 3] + ([4] if tier == 'thorough' else [])))
     base, _n = H.avoid_known_shapes(draw(H.hint_nodes(depth)))
     base = _opaque_free(base)
